@@ -208,7 +208,7 @@ theorem clusInRng_bounds {b : Bpb} {c : Nat} (h : clusInRng b c = true) : 2 ≤ 
 theorem writeBlock_ok {d : Disk} {f : Array Nat} (w : WOk d f) (data : Bytes) {prev curr : Nat}
     (hc : clusInRng d.bpb curr = true) (hp : prev < 2 ∨ clusInRng d.bpb prev = true) :
     ∃ r' f', writeBlock data prev curr d = (.ok (), { d with raw := r', fat := some f' }) ∧
-      WOk { d with raw := r', fat := some f' } f' ∧ r'.units.size = d.raw.units.size ∧
+      WOk { d with raw := r', fat := some f' } f' ∧ r'.units.size = d.raw.units.size ∧ r'.unitLen = d.raw.unitLen ∧
       rd12 (fn f') curr = 0xfff ∧ (2 ≤ prev → prev ≠ curr → rd12 (fn f') prev = curr) ∧
       (∀ m, m ≠ curr → (prev < 2 ∨ m ≠ prev) → rd12 (fn f') m = rd12 (fn f) m) ∧
       (∀ u, u ∉ List.range' (d.bpb.firstClusterSec curr) d.bpb.spc → r'.units[u]? = d.raw.units[u]?) := by
@@ -247,7 +247,7 @@ theorem writeBlock_ok {d : Disk} {f : Array Nat} (w : WOk d f) (data : Bytes) {p
       · intro m hm _
         rw [g2, rd_wr_other _ _ _ _ hm w.bytes]
   obtain ⟨f1, f', hk1, hk2, hs', hb', h1, h2, h3⟩ := key
-  refine ⟨r', f', ?_, ?_, hsz, h1, h2, h3, hfr⟩
+  refine ⟨r', f', ?_, ?_, hsz, hul, h1, h2, h3, hfr⟩
   · unfold writeBlock
     rw [M_bind_apply, hz]
     simp only []
@@ -284,14 +284,14 @@ theorem writeLoop_ok (chunks : List (Nat × Bytes)) :
       (∀ k ∈ ks, (chunks.lookup k).isSome = true) → ks.length ≤ freeCount d.bpb f →
       (prev < 2 ∨ (clusInRng d.bpb prev = true ∧ isFree12 f prev = false)) →
       ∃ entry' d' f', writeLoop chunks ks entry prev d = (.ok entry', d') ∧ WOk d' f' ∧ d'.bpb = d.bpb ∧
-        d'.raw.units.size = d.raw.units.size ∧ freeCount d.bpb f' + ks.length = freeCount d.bpb f ∧
+        d'.raw.units.size = d.raw.units.size ∧ d'.raw.unitLen = d.raw.unitLen ∧ freeCount d.bpb f' + ks.length = freeCount d.bpb f ∧
         (∀ m, isFree12 f m = false → m ≠ prev → rd12 (fn f') m = rd12 (fn f) m) ∧
         (∀ u, ¬ inFreeCluster d.bpb f u → d'.raw.units[u]? = d.raw.units[u]?) := by
   intro ks
   induction ks with
   | nil =>
     intro d f entry prev w _ _ _
-    exact ⟨entry, d, f, by simp [writeLoop, M_pure_apply], w, rfl, rfl, by simp, fun _ _ _ => rfl, fun _ _ => rfl⟩
+    exact ⟨entry, d, f, by simp [writeLoop, M_pure_apply], w, rfl, rfl, rfl, by simp, fun _ _ _ => rfl, fun _ _ => rfl⟩
   | cons k ks ih =>
     intro d f entry prev w hch hfree hprev
     have hk : (chunks.lookup k).isSome = true := hch k (by simp)
@@ -303,7 +303,7 @@ theorem writeLoop_ok (chunks : List (Nat × Bytes)) :
       cases hprev with
       | inl h => exact Or.inl h
       | inr h => exact Or.inr h.1
-    obtain ⟨r1, f1, hwb, w1, hsz1, g1, g2, g3, hfr1⟩ := writeBlock_ok w data hcr hp'
+    obtain ⟨r1, f1, hwb, w1, hsz1, hul1, g1, g2, g3, hfr1⟩ := writeBlock_ok w data hcr hp'
     have ⟨hc2, hcu⟩ := clusInRng_bounds hcr
     have hcs : curr < 4096 := by have := w.small; omega
     -- prev ≠ curr
@@ -333,8 +333,8 @@ theorem writeLoop_ok (chunks : List (Nat × Bytes)) :
     have ih' := ih d1 f1 (if k = 0 then Entry.setCluster entry curr else entry) curr w1
       (fun x hx => hch x (by simp [hx])) (by simp at hfree; show ks.length ≤ freeCount d.bpb f1; omega)
       (Or.inr ⟨hcr, hcurr1⟩)
-    obtain ⟨entry', d', f', hrun, w', hb', hsz', hcnt', hfat', hraw'⟩ := ih'
-    refine ⟨entry', d', f', ?_, w', hb', by rw [hsz']; exact hsz1, ?_, ?_, ?_⟩
+    obtain ⟨entry', d', f', hrun, w', hb', hsz', hul', hcnt', hfat', hraw'⟩ := ih'
+    refine ⟨entry', d', f', ?_, w', hb', by rw [hsz']; exact hsz1, by rw [hul']; exact hul1, ?_, ?_, ?_⟩
     · unfold writeLoop
       simp only [hdata]
       rw [M_bind_apply, getAvailableBlock_open w, hcurr]
